@@ -296,6 +296,7 @@ func writeEvidence(opt *Options, rep *CheckReport, notCovered []string, violatio
 		"no aliasing of slice backing arrays is modelled; callees are assumed not to write through slice arguments",
 		"calls without a contract havoc the heap and their results; goroutines, channels, select, unsafe, reflection are out of fragment",
 		"pure methods are functions of receiver and arguments only (immutable-object assumption)",
+		"a contracted callee runs no function values other than its arguments (closures stored in the heap earlier are not re-entered by it)",
 		"every trusted contract listed in coverage.trusted_base",
 	}
 	ass = append(ass, rep.Assumptions...)
